@@ -557,6 +557,8 @@ def run(rep, tier, seed, replay=None):
                     else: col = [rng.choice(pool[w]) for _ in range(n)]
                     for comp in (0, 1):
                         cl.append("E 5 %d 4 1001 %d 12101 209000 %d %s" % (comp, 209000 + w, n, " ".join("r%x %s |" % (k + 1, tok % v) for k, v in enumerate(col))))
+                    # the column alone: Section 4 of the compressed message is exactly the model's column (IeeeCol.v)
+                    cl.append("E 5 1 3 %d 12101 209000 %d %s" % (209000 + w, n, " ".join("%s |" % (tok % v) for v in col)))
         eo = cctx.run_c(cl)
         dl, dm = [], []
         for line, o in zip(cl, eo):
@@ -583,6 +585,40 @@ def run(rep, tier, seed, replay=None):
             if got != want:
                 violation("a %s message with the 2 09 YYY column [%s] is read back as [%s]: not every value returns with its own bit pattern" % (
                     "compressed" if comp == "1" else "plain", " ".join(want), " ".join(got)), line[:300], 1, extra={"column_line": line})
+
+        # correspondence IeeeCol.v <-> bufr_put_ieeefp_compressed / bufr_get_ieeefp_compressed on the column-only messages
+        import bufrmsg
+        mlines, mmeta = [], []
+        for line, o in zip(cl, eo):
+            t = line.split()
+            if t[3] != "3":
+                continue
+            h = codec.parse_c_listing(o)[0]
+            if h.get("rc") != "0":
+                continue
+            w = int(t[4]) - 209000; n = int(t[7])
+            pats = [x[1:].lstrip("0") or "0" for x in t[8:] if x != "|"]
+            try:
+                s4 = bufrmsg.parse(bytes.fromhex(h["msg"]))["s4"].hex()
+            except Exception:
+                continue
+            mlines.append("COL %d %s" % (w, " ".join(pats))); mmeta.append(("enc", line, s4, pats, None))
+            a = rng.randint(1, n); b_ = rng.randint(a, n)
+            mlines.append("COLR %d %d %d %d %s" % (w, n, a, b_, s4)); mmeta.append(("range", line, s4, pats, (a, b_)))
+        mo = run_model(mlines)
+        for (kind, line, s4, pats, ab), m in zip(mmeta, mo):
+            ncorr += 1
+            bump("column_model_" + kind)
+            if kind == "enc":
+                ok = s4.startswith(m) and set(s4[len(m):]) <= {"0"} and len(s4) - len(m) <= 4
+                if not ok:
+                    violation("correspondence IeeeCol.ieee_col_enc <-> bufr_put_ieeefp_compressed broken: Section 4 data of the library %s, model %s" % (s4, m),
+                              line[:300], 1, no_input=True, extra={"column_line": line, "correspondence": "IeeeCol.ieee_col_enc vs bufr_put_ieeefp_compressed"})
+            else:
+                want = " ".join(pats[ab[0] - 1:ab[1]])
+                if m.strip() != want:
+                    violation("correspondence IeeeCol.ieee_col_dec_range broken: subsets %d..%d of the library's column decode to [%s] in the model, the column is [%s]" % (ab[0], ab[1], m, " ".join(pats)),
+                              line[:300], 1, no_input=True, extra={"column_line": line, "correspondence": "IeeeCol.ieee_col_dec_range vs library message"})
 
     if contract_bad and not rep.violations:
         violation("the contract on libm assumed by the theorems (-1 <= (int)(log(x)/log(2)) - floor(log2 x) <= 2, subnormals not above the minimum exponent) "
